@@ -212,6 +212,8 @@ class RefSdoServer:
         if any(d[8 - n:8]):
             self._bad("segment-padding-nonzero", d)
         st["buf"] += d[1:8 - n]
+        if n == 7 and last:
+            self.paths.add("closing-empty-segment")
         if st["size"] is not None and len(st["buf"]) > st["size"]:
             self._bad("more-bytes-than-declared", d)
         st["toggle"] ^= 1
